@@ -503,7 +503,7 @@ pub fn run(tier: Tier, seed: u64, replay: Option<&std::path::Path>) -> i32 {
         tier,
         seed,
         replay,
-        (3000, 30000),
+        (3000, 120000),
         80,
         strategy,
         run_case,
